@@ -37,6 +37,13 @@ namespace occa {
     return *this;
   }
 
+  bool iteration::isEmpty() const {
+    if (type == iterationType::indexArray) {
+      return !indices.length();
+    }
+    return !range.length();
+  }
+
   std::string iteration::buildForLoop(forLoopType loopType,
                                       occa::scope &scope,
                                       const std::string &iteratorName) const {
@@ -130,12 +137,17 @@ namespace occa {
     std::stringstream ss;
 
     // for (int i = 0; i < N; i += 1; @attr) {
-    //   idx = idcPtr[i];
+    //   idx -> idcPtr[i]
+    // The index is a macro rather than a statement between the loops:
+    // @outer and @tile loops have to stay perfectly nested
+    scope.props["defines"][iteratorName] = (
+      iteratorPtrName + "[" + iteratorIndexName + "]"
+    );
+
     ss << "for (int " << iteratorIndexName << " = 0;"
        << " " << iteratorIndexName << " < " << iteratorLengthName << ";"
        << " ++" << iteratorIndexName << ";"
-       << " " << forAttribute << ") {"
-       << "  const int " << iteratorName << " = " << iteratorPtrName << "[" << iteratorIndexName << "];";
+       << " " << forAttribute << ") {";
 
     return ss.str();
   }
